@@ -84,3 +84,14 @@ Theorem C11_help_command_unknown_topic :
     run_help specs st (a0 :: rest) = DErr (mkErrA ENoHelpTopic [a0] (msg_no_help_topic a0) false).
 Proof. exact help_command_unknown_topic. Qed.
 Print Assumptions C11_help_command_unknown_topic.
+
+(* a topic that is a command of the level (by the name it was declared with: what selects it on the
+   command line and what completion offers after `help `) prints that command's help *)
+Theorem C11_help_command_topic :
+  forall specs st pl ups a0 rest c,
+    up st = pl :: ups ->
+    alookup a0 (n_cmds (lv_node pl)) = Some c ->
+    run_help specs st (a0 :: rest) =
+      DHelp (help_output specs (List.map (fun l => ni_name (n_info (lv_node l))) (rev (up st)) ++ [ni_name (n_info c)]) false c).
+Proof. exact help_command_topic. Qed.
+Print Assumptions C11_help_command_topic.
